@@ -192,7 +192,8 @@ impl Scenario for LifecycleScenario {
                     0 | 1 => json!({"op": "nq", "h": if r.chance(3, 4) { coord } else { h }, "s": if r.chance(9, 10) { 0 } else { s }}),
                     2 | 3 | 4 => json!({"op": "in_all"}),
                     5 => json!({"op": "in", "h": h, "s": s}),
-                    6 | 7 => json!({"op": "st", "h": h}),
+                    // some status requests come in pairs issued at the same time by two client tasks
+                    6 | 7 => if r.chance(1, 3) { json!({"op": "st", "h": h, "twice": true}) } else { json!({"op": "st", "h": h}) },
                     8 | 9 => json!({"op": "co", "h": h, "s": if r.chance(2, 3) { 0 } else { s }}),
                     10 => json!({"op": "kl", "h": h, "s": s}),
                     _ => json!({"op": "co_all"}),
@@ -233,7 +234,10 @@ impl Scenario for LifecycleScenario {
             let killed_running = StdArc::clone(&killed_running2);
             let failed_create = StdArc::clone(&failed_create2);
             shuttle::future::block_on(async move {
-                let world = build(shards, reject, &fired);
+                // the world is shared with the (few) client tasks that issue two requests at the same time
+                let keep = crate::verif::world::SharedWorld::new(build(shards, reject, &fired));
+                // SAFETY: `keep` lives until the end of this block; client tasks hold their own clone
+                let world: &World = unsafe { keep.get() };
                 let mut m = vec![vec![N; shards]; 3]; // the reference model
                 // per shard ring: helpers whose task was started in this generation / killed while possibly unfinished
                 let mut started = vec![[false; 3]; shards];
@@ -272,6 +276,7 @@ impl Scenario for LifecycleScenario {
                     let mut note = String::new();
                     match name.as_str() {
                         "nq" => {
+                            let fired_before = fired.load(AO::SeqCst);
                             let r = world.nodes[h][s].app.start_query(cfg).await;
                             let all_none = m.iter().flatten().all(|x| *x == N);
                             let any_unknown = m.iter().flatten().any(|x| *x == X);
@@ -311,6 +316,18 @@ impl Scenario for LifecycleScenario {
                                                 }
                                             }
                                         }
+                                        // the rejection was injected during THIS create on a non-leader shard of another helper: that
+                                        // helper's leader shard asked its shards before registering anything, so it holds no query
+                                        if let Some((rh, rs, _)) = reject {
+                                            if injected && !fired_before && rs != 0 && rh != h && before[rh][0] == N {
+                                                m[rh][0] = N;
+                                                tainted[rh][0] = false;
+                                                let st = world.nodes[rh][0].app.query_status(QueryId).await;
+                                                if let Ok(st) = st {
+                                                    bad("failed_prepare_left_trace_on_follower", format!("op {k}: shard {rs} of H{} rejected the prepare request, yet H{}/s0 reports status {st:?}", rh + 1, rh + 1));
+                                                }
+                                            }
+                                        }
                                         // observable: a status request on that node must say "no such query" (leader only)
                                         if s == 0 && m[h][s] == N {
                                             let st = world.nodes[h][0].app.query_status(QueryId).await;
@@ -344,10 +361,32 @@ impl Scenario for LifecycleScenario {
                             }
                         }
                         "st" => {
-                            let r = world.nodes[h][0].app.query_status(QueryId).await;
+                            let twice = op.get("twice").and_then(Value::as_bool) == Some(true);
+                            let results = if twice {
+                                // two clients ask at the same time: each answer must be one a single client could have got
+                                let hs: Vec<_> = (0..2)
+                                    .map(|_| {
+                                        let k2 = keep.share();
+                                        shuttle::future::spawn(async move {
+                                            let w: &World = unsafe { k2.get() };
+                                            let r = w.nodes[h][0].app.query_status(QueryId).await;
+                                            drop(k2);
+                                            r
+                                        })
+                                    })
+                                    .collect();
+                                let mut v = Vec::new();
+                                for hnd in hs {
+                                    v.push(hnd.await.unwrap());
+                                }
+                                v
+                            } else {
+                                vec![world.nodes[h][0].app.query_status(QueryId).await]
+                            };
                             let states: Vec<u8> = (0..shards).map(|ss| m[h][ss]).collect();
                             let unknown = states.iter().any(|x| *x == X);
-                            match &r {
+                            for r in &results {
+                            match r {
                                 Ok(st) => {
                                     if !unknown {
                                         if states.iter().any(|x| *x == N) {
@@ -365,11 +404,12 @@ impl Scenario for LifecycleScenario {
                                 }
                                 Err(e) => {
                                     if !unknown && states.iter().all(|x| *x != N) {
-                                        bad("status_failed", format!("op {k}: query_status on H{} failed with model states {states:?}: {e}", h + 1));
+                                        bad("status_failed", format!("op {k}: query_status on H{} failed with model states {states:?}: {e}{}", h + 1, if twice { " (one of two simultaneous requests)" } else { "" }));
                                     }
                                 }
                             }
-                            note = format!("{:?}", r.as_ref().map_err(ToString::to_string));
+                            }
+                            note = format!("{:?}", results.iter().map(|r| r.as_ref().map_err(ToString::to_string)).collect::<Vec<_>>());
                         }
                         "co" | "co_all" => {
                             let targets: Vec<(usize, usize)> = if name == "co" { vec![(h, s)] } else { (0..3).map(|hh| (hh, 0)).collect() };
